@@ -20,31 +20,33 @@ import (
 // alteration on the wire, and the behaviour of the entropy seam.
 
 var (
-	c02keysGen    = core.RegCounter("c02.keys_from_GenerateKey")
-	c02keysSeed   = core.RegCounter("c02.keys_from_NewKeyFromSeed")
-	c02genErr     = core.RegCounter("c02.GenerateKey_with_injected_reader_error")
-	c02detSigs    = core.RegCounter("c02.deterministic_signatures_compared_with_stdlib")
-	c02pure       = core.RegCounter("c02.variant_pure")
-	c02ctx        = core.RegCounter("c02.variant_ctx")
-	c02ph         = core.RegCounter("c02.variant_ph")
-	c02signerIfc  = core.RegCounter("c02.signed_through_crypto_Signer_with_plain_hash_opts")
-	c02pkgSign    = core.RegCounter("c02.signed_through_package_Sign")
-	c02hedged     = core.RegCounter("c02.hedged_signatures")
-	c02hedgedErr  = core.RegCounter("c02.hedged_with_injected_reader_error")
-	c02selfVerify = core.RegCounter("c02.self_verify_enabled")
-	c02verifies   = core.RegCounter("c02.single_verifications_of_produced_signatures")
-	c02batches    = core.RegCounter("c02.batch_verifications_of_produced_signatures")
-	c02wire       = core.RegCounter("c02.wire_alterations")
-	c02wireSig    = core.RegCounter("c02.wire.signature_bit")
-	c02wireMsg    = core.RegCounter("c02.wire.message")
-	c02wireKey    = core.RegCounter("c02.wire.key")
-	c02wireCtx    = core.RegCounter("c02.wire.context")
-	c02wireLen    = core.RegCounter("c02.wire.truncate_or_extend")
-	c02invalid    = core.RegCounter("c02.invalid_option_or_length_cases")
-	c02chunkTwin  = core.RegCounter("c02.hedged_replayed_with_other_chunking")
-	c02enumCases  = core.RegCounter("c02.entropy_error_enumeration_cases")
-	c02ctx255     = core.RegCounter("c02.context_of_254_or_255_bytes")
-	c02alias      = core.RegCounter("c02.returned_public_key_scribbled_by_the_caller")
+	c02keysGen     = core.RegCounter("c02.keys_from_GenerateKey")
+	c02keysSeed    = core.RegCounter("c02.keys_from_NewKeyFromSeed")
+	c02genErr      = core.RegCounter("c02.GenerateKey_with_injected_reader_error")
+	c02detSigs     = core.RegCounter("c02.deterministic_signatures_compared_with_stdlib")
+	c02pure        = core.RegCounter("c02.variant_pure")
+	c02ctx         = core.RegCounter("c02.variant_ctx")
+	c02ph          = core.RegCounter("c02.variant_ph")
+	c02signerIfc   = core.RegCounter("c02.signed_through_crypto_Signer_with_plain_hash_opts")
+	c02pkgSign     = core.RegCounter("c02.signed_through_package_Sign")
+	c02hedged      = core.RegCounter("c02.hedged_signatures")
+	c02hedgedErr   = core.RegCounter("c02.hedged_with_injected_reader_error")
+	c02selfVerify  = core.RegCounter("c02.self_verify_enabled")
+	c02verifies    = core.RegCounter("c02.single_verifications_of_produced_signatures")
+	c02batches     = core.RegCounter("c02.batch_verifications_of_produced_signatures")
+	c02wire        = core.RegCounter("c02.wire_alterations")
+	c02wireSig     = core.RegCounter("c02.wire.signature_bit")
+	c02wireMsg     = core.RegCounter("c02.wire.message")
+	c02wireKey     = core.RegCounter("c02.wire.key")
+	c02wireCtx     = core.RegCounter("c02.wire.context")
+	c02wireLen     = core.RegCounter("c02.wire.truncate_or_extend")
+	c02invalid     = core.RegCounter("c02.invalid_option_or_length_cases")
+	c02chunkTwin   = core.RegCounter("c02.hedged_replayed_with_other_chunking")
+	c02enumCases   = core.RegCounter("c02.entropy_error_enumeration_cases")
+	c02rxReuse     = core.RegCounter("c02.tours_through_one_reused_receive_buffer")
+	c02rxCompanion = core.RegCounter("c02.other_signers_tuple_read_into_the_receive_buffer_first")
+	c02ctx255      = core.RegCounter("c02.context_of_254_or_255_bytes")
+	c02alias       = core.RegCounter("c02.returned_public_key_scribbled_by_the_caller")
 )
 
 func init() {
@@ -123,7 +125,56 @@ func c02MakeCompanion() {
 	c02companion = &struct{ pk, msg, sig []byte }{clone(k[32:]), m, ed25519.Sign(k, m)}
 }
 
+// A verifier's receive buffer: in half of the runs every tuple is copied into the SAME backing array before
+// the tour (a server reading requests into one buffer), sometimes after another signer's honest tuple went
+// through it; what earlier requests left there, and whatever the library remembered, must not show.
+var (
+	c02rxOwner *core.Run
+	c02rxOn    bool
+	c02rx      []byte
+)
+
+func c02Receive(r *core.Run, pk, msg, sig []byte) ([]byte, []byte, []byte) {
+	if c02rxOwner != r {
+		c02rxOwner, c02rx, c02rxOn = r, nil, r.T.W(2) == 1
+	}
+	if !c02rxOn {
+		return pk, msg, sig
+	}
+	place := func(parts ...[]byte) [][]byte {
+		need := 0
+		for _, p := range parts {
+			need += len(p)
+		}
+		if cap(c02rx) < need {
+			c02rx = make([]byte, 2*need+256)
+		}
+		out := make([][]byte, len(parts))
+		off := 0
+		for i, p := range parts {
+			if p != nil {
+				out[i] = c02rx[off : off+copy(c02rx[off:], p)]
+			}
+			off += len(p)
+		}
+		return out
+	}
+	if c02companion != nil && r.T.W(3) == 0 {
+		c := place(c02companion.pk, c02companion.msg, c02companion.sig)
+		ok := false
+		pan, _ := Guard(func() { ok = ed25519.Verify(c[0], c[1], c[2]) })
+		r.Count(c02rxCompanion)
+		if (pan || !ok) && len(r.Main.Fails()) == 0 {
+			r.Fail("completeness", "other-signer-rejected", "another signer's honest tuple, read into the verifier's receive buffer after earlier requests, was rejected")
+		}
+	}
+	p := place(pk, msg, sig)
+	r.Count(c02rxReuse)
+	return p[0], p[1], p[2]
+}
+
 func c02AllPaths(r *core.Run, pk, msg, sig []byte, v c02Variant) (acc, total int, detail string) {
+	pk, msg, sig = c02Receive(r, pk, msg, sig)
 	// one precomputed key for the whole tour, as a verifier that keeps expanded keys of
 	// known signers has: it is used under every preset, singly and in batches, several times
 	var ek *ed25519.ExpandedPublicKey
